@@ -233,7 +233,7 @@ PROFILES = {
         [drv(40, 140, dict(DRIVE_SNAP_W, major=1.5, reopen=0.5), once_keys=(5, 6), filters=True)],
         c(Ops={"write", "rotate", "flush", "merge", "major", "snap"}, Vals={1, 2, 3, 4, 5, 6}, MaxSeq=6,
           MaxSnaps=1, MaxHist=4, DestLevels={0, 6}, OnceKeys={2}, FilterRules="<- RulesB"),
-        [drv(600, 300, dict(DRIVE_SNAP_W, major=1.5, reopen=0.5), once_keys=(5, 6), filters=True)],
+        [drv(150, 300, dict(DRIVE_SNAP_W, major=1.5, reopen=0.5), once_keys=(5, 6), filters=True)],
         blobs=[None, None] + BLOBS, val_alphas=[1]),
     # C19 FIFO compaction
     "C19": tree_profile(
